@@ -71,6 +71,13 @@ fn touching(u: &Unk) -> Vec<E> {
             E::bin(BinOp::Eq, E::attr(c.clone(), "n"), E::attr(p.clone(), "age")),
             E::bin(BinOp::Contains, E::Set(vec![E::Long(1), E::attr(c.clone(), "n")]), E::Long(0)),
             E::has(c.clone(), "n"),
+            E::Like(b(E::attr(c.clone(), "n")), vec![Pat::Char('x'), Pat::Star]),
+            E::bin(BinOp::Eq, E::Neg(b(E::attr(c.clone(), "n"))), E::Long(-1)),
+            E::bin(BinOp::Eq, E::bin(BinOp::Mul, E::attr(c.clone(), "n"), E::Long(2)), E::Long(2)),
+            E::bin(BinOp::In, E::attr(c.clone(), "who"), E::Set(vec![E::Ent(ub()), E::attr(p.clone(), "mgr")])),
+            E::bin(BinOp::Eq, E::Rec(vec![("a".into(), E::attr(c.clone(), "n"))]), E::Rec(vec![("a".into(), E::Long(1))])),
+            E::bin(BinOp::HasTag, p.clone(), E::ite(E::bin(BinOp::Eq, E::attr(c.clone(), "n"), E::Long(1)), E::str("t1"), E::str("zz"))),
+            E::ext("isIpv4", vec![E::ite(E::bin(BinOp::Eq, E::attr(c.clone(), "n"), E::Long(1)), E::ext("ip", vec![E::str("10.0.0.1")]), E::ext("ip", vec![E::str("::1")]))]),
         ],
         Unk::EntityAttr => vec![
             E::bin(BinOp::Eq, E::attr(p.clone(), "nick"), E::str("al")),
@@ -97,6 +104,8 @@ fn konsts() -> Vec<E> {
         E::attr(v(Var::Context), "missing"),                                        // attr error (or residual when context unknown)
         E::bin(BinOp::Eq, E::attr(v(Var::Resource), "owner"), E::Ent(ua())),
         E::Long(7), // non-boolean
+        E::bin(BinOp::Gt, E::attr(E::Ent(uz()), "age"), E::Long(1)), // entity missing
+        E::bin(BinOp::Gt, E::bin(BinOp::Add, E::Long(i64::MAX), E::Long(1)), E::Long(0)), // overflow
     ]
 }
 
@@ -453,6 +462,8 @@ pub fn run(tier: Tier, replay_file: Option<&str>) -> i32 {
                         // an entity omitted from a partial store is an unknown named by its uid;
                         // the completion maps it to itself and supplies the full store
                         b_.push((c_uid(&ub()).to_string(), c_rexpr(&Val::Uid(ub()))));
+                        // so is an entity that no store holds: its completion is "still absent"
+                        b_.push((c_uid(&uz()).to_string(), c_rexpr(&Val::Uid(uz()))));
                     }
                     // a partial store is completed by handing the full store to reauthorize
                     let re_ents = if *u == Unk::PartialStore { cents.clone() } else { inputs.ents.clone() };
